@@ -5,13 +5,17 @@ import vf
 
 IMPORTS = """From Coq Require Import Floats ZArith.
 From mathcomp Require Import ssreflect ssrfun ssrbool eqtype ssrnat seq.
-From LS Require Import NumOps F64Ops Kernels Algebra Mlr.
+From LS Require Import NumOps F64Ops Kernels Algebra Lse Mlr.
 Local Open Scope float_scope.
 """
 DEFS = """Definition REL := 0x1p-36.
 Definition mchk (a b : seq (seq float)) := m_agree REL (mmax b) a b.
 Definition vchk (a b : seq float) := v_agree REL (vmax b) a b.
 Definition fchk (a b : float) := f_agree REL 0 a b.
+(* SolveLSE: the executable model from the three solution vectors the driver passes (fresh, right size holding
+   7.5(q+1)-3.25, two too long) against the three vectors the library returned *)
+Definition lse_ok (Ab : seq (seq float)) (s1 : seq float) (r0 r1 r2 : seq float) :=
+  [&& vchk (solve_lse Ab [::]) r0, vchk (solve_lse Ab s1) r1 & vchk (solve_lse Ab (s1 ++ [:: 0; 0])) r2].
 """
 
 
@@ -134,6 +138,10 @@ def run(ck, rng, tier):
             ck.case(("lse", M.shape[0], skind, repr(M[0].tolist())))
             b_ = M @ x
             kM = float(np.linalg.cond(M))
+            if M.shape[0] <= 8 and kM <= 1e3 and all(k_ in o for k_ in ("solution", "solution_reused", "solution_resized")):
+                Ab_ = np.hstack([M, b_.reshape(-1, 1)]).tolist()
+                s1_ = [7.5 * (q + 1) - 3.25 for q in range(M.shape[0])]
+                checks.add(i, "solve_lse", "lse_ok %s %s %s %s %s" % (cm(Ab_), cv(s1_), cv(o["solution"]), cv(o["solution_reused"]), cv(o["solution_resized"])))
             # every non-singular system of the quantified domain (condition <= 1e6, any units): small residual (backward
             # stability) and a solution within condition x rounding of the exact one; the same whatever the solution
             # vector held before the call
@@ -196,7 +204,7 @@ def run(ck, rng, tier):
     ck.cov["traces_validated_against_impl"] = len(meta)
     ck.cov["rule"] = "sizes 1..12; structured families: permutation, zero leading entry, triangular, SPD, diagonal, general with condition 1..1e6; rectangular SVD both orientations; oracle numpy (LU determinant, lstsq)"
     ck.assumptions += ["LAPACK (dgetrf/dgetri/dgesdd/dgeev) is an oracle with its documented contract; the glue around it is checked through the defining equations",
-                       "SolveLSE is judged on well-scaled systems only (its pivot threshold is an absolute 1e-4)"]
+                       "SolveLSE: model vs library on systems of condition <= 1e3 (binary64 agreement 2^-36 relative); the defining equation on every generated system"]
 
 
 def replay(ck, rp):
